@@ -17,6 +17,7 @@ import sys
 from fractions import Fraction
 
 sys.path.insert(0, os.path.dirname(os.path.dirname(os.path.abspath(__file__))))
+sys.path.insert(0, os.path.dirname(os.path.abspath(__file__)))
 import vlib
 from vlib import BrokenTie, Broken, Failure, Check
 
@@ -460,6 +461,12 @@ class C20(Check):
         self.tables = tb
         ctx.cov["table_rows"] = {k: len(v["keys"]) for k, v in tb.items()}
         vlib.write_if_changed(os.path.join(vlib.GEN, "Tables.lean"), gen_tables_lean(tb))
+        # the arithmetic of every metric function, re-extracted from the current source (python ast -> MExpr)
+        import c20_translate
+
+        terms, kinds, notes = c20_translate.translate_all()
+        ctx.cov["formula_terms"] = {k: kinds[k] for k in terms}
+        vlib.write_if_changed(os.path.join(vlib.GEN, "MetricsFormulas.lean"), c20_translate.gen_lean(terms, kinds))
 
     # ------------------------------------------------------------------ one network
     def run_spec(self, ctx, spec, reqs, fails, with_sim=True, label=""):
